@@ -20,8 +20,8 @@ HFNamePool == {"header1.xml", "header2.xml", "header3.xml", "footer1.xml", "foot
 DevPool == {d \in AllDevs : d.dim \in Dims}
 
 SimpleOps == {"AddParagraph", "AddHeading", "AddFormattedParagraph", "AddListItem", "AddFootnote", "AddEndnote",
-              "AddPageBreak", "Save", "SaveFile", "Reopen", "Render", "SetPageMargins", "AddTable", "SetTitle",
-              "SetFootnoteConfig"}
+              "AddPageBreak", "Save", "SaveFile", "Reopen", "Render", "SetPageMargins", "AddTable",
+              "SetFootnoteConfig", "GetDocumentProperties"} \cup PropOps
 
 \* plan restrictions (which behaviours are enumerated, never what is demanded of them)
 OpsFor(D) == IF \E d \in D : d.dim \in SlimDims THEN EditOps \cap SlimOps ELSE EditOps
@@ -123,6 +123,16 @@ Inv_All ==
            claimed == HasPart(o.parts, StylesPart) /\ StyleRefs(o.body) \subseteq o.styles.defs
                       /\ ~(\E i \in 2..Len(hist) : hist[i].op = "AddHeading" /\ "Heading1" \notin o.styles.defs)
        IN ws = IF claimed THEN {<<"part-changed", "styles">>} ELSE {}
+    \* BYTE CLASSES: a reader that skips entries without content loses exactly the claimed empty parts
+    /\ W(st, oo, Lossy_SkipEmpty(o, now))
+          = {<<"part-dropped", LabelOfPart(o, p.n)>> : p \in {q \in o.parts : q.b = "empty" /\ q.n \notin st.regen}}
+    \* PLACEMENT: a writer that points the relationships of the roles it knows (properties, numbering, notes,
+    \* settings) at its own conventional names is reported for exactly the relationships of parts placed
+    \* elsewhere - also after the edit that rewrites the role's part, which takes the PART out of the claim only
+    /\ W(st, oo, Lossy_Conventional(now))
+          = {<<RelTag(r.src, "rel-target-changed"), r.k>> :
+               r \in {x \in o.rels : Claimed(st, x) /\ x.mode = "Internal"
+                                      /\ \E ro \in Roles : ro[1] = x.src /\ ro[2] = x.ty /\ ro[3] # x.rt}}
     \* an image stored under a name that is already taken is a violation: freshness is necessary
     /\ \A p \in {q \in st.m.parts : q.k = "media" /\ q.cls # "new"} :
          LET m2 == [st.m EXCEPT !.parts = (st.m.parts \ {p}) \cup {[p EXCEPT !.h = "new"]}]
